@@ -4,6 +4,7 @@
 import json, glob, os, re, sys
 confirm = {}   # id -> confirm string
 checks = {}    # id -> {prop: (exit, labels)}
+first = {}     # id -> exit code of the property's check when the seed was first evaluated
 for f in sorted(glob.glob('/root/vscratch/seed_eval*.log')):
     for l in open(f):
         m = re.match(r'(C\d+-\d+) prop=(C\d+) (.*)', l.strip())
@@ -20,6 +21,8 @@ for f in sorted(glob.glob('/root/vscratch/seed_eval*.log')):
             if os.path.exists(lf):
                 labels = ','.join(sorted(set(re.findall(r'obligation ([A-Za-z0-9_.]+) failed', open(lf).read())))[:4])
             checks.setdefault(sid, {})[prop] = (int(ce.group(1)), labels)
+            if not (f.endswith('seed_eval.log') and int(ce.group(1)) == 2):  # that run hit a stale-harness build error; its real first verdict is in seed_check.log
+                first.setdefault(sid, int(ce.group(1)))
 for f in sorted(glob.glob('/root/vscratch/seed_check*.log')):
     for l in open(f):
         l = l.strip()
@@ -34,6 +37,12 @@ for f in sorted(glob.glob('/root/vscratch/seed_check*.log')):
             m = re.match(r'(C\d+) exit=(\d+) ?(.*)', p.strip())
             if m:
                 checks.setdefault(sid, {})[m.group(1)] = (int(m.group(2)), m.group(3).strip(', '))
+                if m.group(1) == sid.split('-')[0]:
+                    first.setdefault(sid, int(m.group(2)))
+OVERRIDE = {
+    'C15-2': 'caught (ported to HEAD, see meta.json)',   # original patch conflicts with fix 4263330; patch_ported_to_head.diff is what was checked
+    'C16-3': 'not caught: piping is outside the claim',
+}
 rows = []
 for d in sorted(glob.glob('/verif/seeded/C*-*')):
     sid = os.path.basename(d)
@@ -47,17 +56,21 @@ for d in sorted(glob.glob('/verif/seeded/C*-*')):
         status = {0: 'MISSED', 1: 'caught', 2: 'inconclusive'}.get(own[0], str(own[0]))
     if sid in confirm and 'no longer applies' in confirm[sid]:
         status = 'n/a (conflicts with a fix)'
+    status = OVERRIDE.get(sid, status)
     meta['confirmed_here'] = confirm.get(sid, '')
     meta['checked_with'] = 'git -C /repo apply patch.diff; ./bin/vcheck run %s --no-evidence; git -C /repo checkout -- .' % prop
     meta['check_result'] = status
+    fr = {0: 'missed', 1: 'caught', 2: 'inconclusive'}.get(first.get(sid), '')
+    meta['check_result_when_first_evaluated'] = fr
     meta['failed_obligations'] = own[1] if own else ''
     meta['also_caught_by'] = [p for p in caught if p != prop]
     json.dump(meta, open(d + '/meta.json', 'w'), indent=1)
     what = (meta.get('what_it_breaks') or '')[:110].replace('|', '/').replace('\n', ' ')
-    rows.append('| %s | %s | %s | %s | %s |' % (sid, prop, status, (own[1] if own else '')[:90], what))
+    rows.append('| %s | %s | %s | %s | %s | %s |' % (sid, prop, fr, status, (own[1] if own else '')[:90], what))
 out = ['# Seeded changes and what catches them', '',
        'Each directory holds `patch.diff` (apply with `git -C /repo apply`), the sub-agent\'s demonstration test and `meta.json`.',
        'Every seed was confirmed in a scratch worktree (builds, pinned tests pass, demo fails with the patch and passes without).', '',
-       '| seed | property | own check | obligations that fail | what it breaks |', '|---|---|---|---|---|'] + rows
+       '`first run` is the verdict of the property\'s check as it stood when the seed arrived; `now` after the strengthening it prompted (DESIGN.md 0.6).', '',
+       '| seed | property | first run | now | obligations that fail | what it breaks |', '|---|---|---|---|---|---|'] + rows
 open('/verif/seeded/RESULTS.md', 'w').write('\n'.join(out) + '\n')
 print('\n'.join(rows))
